@@ -63,7 +63,7 @@ def split_reads(w):
             "D": [A[0::2], A[1::2]], "F": [B[0::2], B[1::2]], "L": None}
 
 
-LABELS = {"D": ["drug1", "drug2"], "L": ["ctrl_b", "ctrl_a"]}
+LABELS = {"D": ["drug1", "drug2"], "L": ["2", "1"]}          # digit-only labels are written as numbers in the YAML file
 MULTI = ("D", "F", "L")            # L: the SAME two files as D under other labels (experiments of one run may share input files)
 
 
@@ -121,7 +121,7 @@ def joint_case(args):
         for x in seq:
             it = {"name": x, "long read files": paths[x] if isinstance(paths[x], list) else [paths[x]]}
             if x in LABELS:
-                it["labels"] = LABELS[x]
+                it["labels"] = [int(l) if l.isdigit() else l for l in LABELS[x]]
             items.append(it)
         import yaml
         with open(cfg, "w") as f:
